@@ -125,8 +125,8 @@ def cli_flag_check(quick=True):
 
 def rate_one_check(quick=True):
     """C15, bounded, through the public API (builder with_mutation_rate + registered mutator): at rate 1.0 with the boundary
-    mutator every BININT / FLOAT / BINFLOAT argument in the output is one of the mutator's boundary constants (no value
-    escapes mutation), in both entropy modes.  Returns (n_runs, first_violation or None)."""
+    mutator registered (alone, or FIRST of several) every BININT / FLOAT / BINFLOAT argument in the output is one of the
+    mutator's boundary constants (no value escapes mutation, no later mutator gets ahead), in both entropy modes.  Returns (n_runs, first_violation or None)."""
     import math
     import pickletools
     build()
@@ -134,6 +134,9 @@ def rate_one_check(quick=True):
     for P in range(6):
         for sd in range(12 if quick else 120):
             jobs.append('P=%d seed=%d mut=boundary rate=1.0 min=60 max=200' % (P, sd))
+            # "... is mutated by the FIRST such mutator": boundary registered first decides every int and float, the
+            # mutators registered after it never get to see one
+            jobs.append('P=%d seed=%d mut=boundary,bitflip,offbyone rate=1.0 min=60 max=200' % (P, sd))
         for h in ('', '00', '0503', 'a1b2c3d4e5f60718', '17' * 40):
             jobs.append('P=%d hex=%s mut=boundary rate=1.0 min=20 max=60' % (P, h))
     ints = {0, -1, 1, 2 ** 31 - 1, -2 ** 31}
@@ -409,6 +412,17 @@ def grid(prop, quick, seed=0):
             # anything that survives reset() through capacity or allocation state shows here
             for sd in range(2 if quick else 10):
                 out.append('P=%d seed=%d min=4000 max=4001 calls=seed;seed;freshseed' % (P, sd))
+            # registered mutators are configuration too: nothing about them (their order, anything they remember) may
+            # differ between the second call of a reused generator and a fresh one.  Odd and even opcode counts, so
+            # that per-opcode bookkeeping over the mutator list cannot cancel out.
+            for sd in range(12 if quick else 120):
+                for cfgm in ('mut=bitflip,boundary rate=1.0 min=11 max=11', 'mut=boundary,offbyone,character rate=1.0 min=20 max=20',
+                             'mut=offbyone,memoindex,stringlen rate=0.5 min=40 max=90',
+                             'mut=typeconfusion,bitflip,memoindex rate=0.6 unsafe=1 min=30 max=61'):
+                    out.append('P=%d seed=%d %s calls=seed;seed;freshseed' % (P, sd, cfgm))
+            for h in ('', '00', '0b25', 'ff01fe02fd03', '1b' * 30):
+                out.append('P=%d mut=bitflip,boundary rate=1.0 min=11 max=11 calls=hex:%s;hex:%s;fresh:%s' % (P, h, h, h))
+                out.append('P=%d mut=stringlen,character,offbyone rate=1.0 min=9 max=9 calls=hex:01;reset;hex:%s;fresh:%s' % (P, h, h))
         return out
     if prop == 'C11':
         mutsets += ['mut=stringlen rate=1.0', 'mut=memoindex,typeconfusion rate=0.5 unsafe=1', 'unsafe=1']
@@ -541,8 +555,14 @@ def _c12_sweep(args):
     import pickletools
     P, flags, lo, hi = args
     seen, framed, unframed = set(), 0, 0
-    for j, line in run_jobs(['P=%d seed=%d %s' % (P, sd, flags) for sd in range(lo, hi)]):
-        if not line.startswith('ok '):
+    # the process first generates one pickle of every OTHER protocol (lowest first; results ignored): reachability is
+    # claimed for a generator wherever it runs, also in a process that has produced other protocols before (anything
+    # remembered process-wide across protocols - say a vocabulary cached by the first caller - would make opcodes
+    # unreachable here).  The same order in every chunk: the union over chunks must not paper over it.
+    others = [q for q in range(6) if q != P]
+    warm = ['P=%d seed=%d min=60 max=300' % (q, 1000003 + q) for q in others]
+    for j, line in run_jobs(warm + ['P=%d seed=%d %s' % (P, sd, flags) for sd in range(lo, hi)]):
+        if j in warm or not line.startswith('ok '):
             continue
         try:
             names = [o.name for o, a, p in pickletools.genops(bytes.fromhex(line[3:]))]
